@@ -514,3 +514,235 @@ Example C05_rebuild_keeps_options_nonvacuous :
          SPragmaFK true] /\
   table_options (mkTdefO sT [] [] [] true true) = [OWithoutRowid; OStrict].
 Proof. split; reflexivity. Qed.
+
+(** * Round 5: C05 on the shared planner and engine (the models of C01), with rowids and sqlite_sequence
+
+    [PM] = Sqlite/PlanModel.v (planner of sql/sqlite/migrate.go over the schema graph, tied by C01 to the SQL text),
+    [EM] = Sqlite/EngineModel.v (abstract SQLite with rowids), [SM] = Sqlite/SeqModel.v (sqlite_sequence on top of it).
+    Tie: stage [rowid] (real go-sqlite3 vs [SM.exec_seq_count] on [PM.PlanChanges]: rows with their rowids,
+    sqlite_sequence). *)
+From Coq Require Import ZArith.
+From Atlas Require Sqlite.EngineModel Sqlite.SeqModel Sqlite.RowsEngine Sqlite.RowsEngineWitness Sqlite.PlanProofs Diff.DiffSqlite.
+Module PM := Atlas.Sqlite.PlanModel.
+Module EM := Atlas.Sqlite.EngineModel.
+Module SM := Atlas.Sqlite.SeqModel.
+Module RE := Atlas.Sqlite.RowsEngine.
+Module RW := Atlas.Sqlite.RowsEngineWitness.
+Module DM := Atlas.Diff.DiffModel.
+
+(** 17. "Tables that are not part of the change set are untouched", for every plan [PM.PlanChanges] computes
+    (any change list, any two schemas) run by [EM.exec_all] on any database: a table that is not named by the
+    change list (and is not the temporary [new_<t>] of a modified [t]) has the same columns and the same rows --
+    rowids included -- afterwards, provided the PRAGMA of the bracket is effective (no transaction open) or
+    enforcement is off already (what sqlite.OpenTx arranges). *)
+Theorem C05_engine_others_untouched :
+  forall (from to : PM.xschema) (cs : list DM.schange) (p : PM.plan) (d d' : EM.db) (n : str),
+    PM.PlanChanges from to cs = Some p ->
+    (EM.db_tx d = false \/ EM.db_fk d = false) ->
+    EM.exec_all d (PM.plan_stmts p) = EM.Ok d' ->
+    ~ In n (SM.touched_names cs) ->
+    SM.content n d' = SM.content n d.
+Proof. exact RE.engine_others_untouched. Qed.
+Print Assumptions C05_engine_others_untouched.
+
+(** 18. The rebuild of a table ([PM.modifyTable], copy path) on the shared engine, for every old/new definition,
+    every change list, every database and sqlite_sequence: when the segment executes (enforcement off), the
+    table exists under its name with the desired columns and
+      - no INSERT was planned (no paired column): it is empty (the known finding, 1a);
+      - otherwise its rows are, in scan order and one for one, the old rows carried over ([RE.row_carried]: a
+        paired column holds what its source expression -- the old column, or IFNULL(old, DEFAULT) -- yields, any
+        other stored column its default); without a rowid alias they are renumbered 1..k, with an INTEGER
+        PRIMARY KEY the rowid is the integer stored in it; for an AUTOINCREMENT table the sqlite_sequence
+        entry afterwards is max(stale entry of new_<t> or 0, largest rowid copied).
+    Premise [NoDup] of the column names: CREATE TABLE refuses anything else. *)
+Theorem C05_engine_rebuild_rows :
+  forall (from : table) (tox : PM.xtable) (cs : list DM.change) (r : list PM.pchange) (sk : bool)
+         (d : EM.db) (s : SM.seqtab) (d' : EM.db) (s' : SM.seqtab),
+    PM.alterable (PM.x_t tox) cs = false ->
+    PM.modifyTable from tox cs = Some (r, sk) ->
+    EM.db_fk d = false ->
+    NoDup (map c_name (t_cols (PM.x_t tox))) ->
+    SM.exec_seq_all (d, s) (map PM.pc_cmd r) = EM.Ok (d', s') ->
+    exists prs cold tnew rows',
+      PM.copy_cols (t_cols (PM.x_t tox)) cs = Some prs /\
+      EM.find_ct (PM.x_name tox) (EM.db_tables d) = Some cold /\
+      RE.rebuilt_def tox tnew /\
+      SM.content (PM.x_name tox) d' = Some (t_cols (PM.x_t tox), rows') /\
+      (prs = [] -> rows' = []) /\
+      (prs <> [] ->
+         Forall2 (RE.row_carried (t_cols (PM.x_t tox)) prs) (EM.ct_rows cold) rows' /\
+         (EM.rowid_alias tnew = None -> map fst rows' = SM.fresh_rowids (length (EM.ct_rows cold))) /\
+         (forall c, EM.rowid_alias tnew = Some c ->
+            Forall (fun r' => forall z, EM.row_get r' c = EM.VInt z -> fst r' = z) rows') /\
+         (PM.x_autoinc tox <> [] ->
+            SM.seq_get (PM.x_name tox) s' =
+              Some (Z.max (match SM.seq_get (PM.NEW_ ++ PM.x_name tox) s with Some z => z | None => 0%Z end)
+                          (EM.max_rowid rows')))).
+Proof. exact RE.engine_rebuild_rows. Qed.
+Print Assumptions C05_engine_rebuild_rows.
+
+(** 19. The pairing of the shared planner: every pair of [PM.copy_cols] names a stored column of the new table
+    and reads the old column of the same name, as it is or through IFNULL with that column's DEFAULT text (only
+    when the new column is NOT NULL); no column is named twice. *)
+Theorem C05_engine_copy_pairing :
+  forall (cols : list column) (cs : list DM.change) (prs : list (str * PM.sexpr)),
+    PM.copy_cols cols cs = Some prs ->
+    (forall c e, In (c, e) prs ->
+       exists col, In col cols /\ c_gen col = None /\ c_name col = c /\
+         (e = PM.XCol c \/ exists x, e = PM.XIfNull c x /\ PM.defaultValue col = Some x /\ c_null col = false)) /\
+    (NoDup (map c_name cols) -> NoDup (map fst prs)).
+Proof. exact RE.copy_cols_spec. Qed.
+Print Assumptions C05_engine_copy_pairing.
+
+(** 20. FULL STATEMENT "a rebuilt table keeps the rowid of every row" is false when the table has no INTEGER
+    PRIMARY KEY: INSERT ... SELECT numbers the copied rows 1..k (rowids 1, 3 become 1, 2).  Reproduced on the real
+    engine (stage rowid, class rowid-renumbered: counted, not a violation -- the rowid is not a column of the
+    desired schema and no foreign key can reference it).  What holds is in 18: order kept, renumbered 1..k. *)
+Theorem C05_rowid_kept_refuted :
+  exists (to : table) tc ex src, EM.rowid_alias to = None /\
+    map fst src = [1%Z; 3%Z] /\ map fst (EM.insert_rows to tc ex src []) = [1%Z; 2%Z].
+Proof. exact RW.rowid_refuted. Qed.
+Print Assumptions C05_rowid_kept_refuted.
+
+(** 21. FULL STATEMENT "the rebuild leaves the AUTOINCREMENT counter of the table as it was" is false: the entry of
+    sqlite_sequence is dropped with the old table and the renamed entry of new_<t> holds the largest rowid
+    *copied* (18): 4 -> 2 when rows 3 and 4 had been deleted, so ids 3 and 4 are handed out again.  Reproduced on
+    the real engine and through the CLI (known finding C05-autoincrement-counter-reset). *)
+Theorem C05_sequence_kept_refuted :
+  exists from tox cs r d s d' s',
+    PM.modifyTable from tox cs = Some (r, true) /\ EM.db_fk d = false /\ PM.x_autoinc tox <> [] /\
+    SM.exec_seq_all (d, s) (map PM.pc_cmd r) = EM.Ok (d', s') /\
+    SM.seq_get (PM.x_name tox) s = Some 4%Z /\ SM.seq_get (PM.x_name tox) s' = Some 2%Z.
+Proof. exact RW.sequence_refuted. Qed.
+Print Assumptions C05_sequence_kept_refuted.
+
+(** 22. The declared type of a column the change set does not modify (coordinator's scenario class, round 5): the
+    rebuilt table declares every column exactly as the desired table does -- the whole [column] record: name, type
+    text, class, nullability, default, generation -- so a column for which the differ reports no type change
+    ([sqlite_type_changed cf col = Some false], diff.typeChanged) is re-created with the *inspected type text* when
+    that text is outside the catalogue of sqlite.ParseType (UserDefinedType: STRING, MONEY, Point3D, ...), and with a
+    type of the same Go class (for the catalogue: the same affinity) otherwise.  Tie: the `create` observation line of
+    every engine stage carries name:type of every column of the CREATE TABLE the Go planner printed; oracle class
+    `untouched-type-rewritten` (stage exhaust, base 4: 16 type texts x 9 values). *)
+Theorem C05_untouched_type_text_kept :
+  forall (from : table) (tox : PM.xtable) (cs : list DM.change) (r : list PM.pchange) (sk : bool)
+         (d : EM.db) (s : SM.seqtab) (d' : EM.db) (s' : SM.seqtab) (cf col : column),
+    PM.alterable (PM.x_t tox) cs = false ->
+    PM.modifyTable from tox cs = Some (r, sk) ->
+    EM.db_fk d = false ->
+    SM.exec_seq_all (d, s) (map PM.pc_cmd r) = EM.Ok (d', s') ->
+    In col (t_cols (PM.x_t tox)) ->
+    Atlas.Diff.DiffSqlite.sqlite_type_changed cf col = Some false ->
+    exists rows', SM.content (PM.x_name tox) d' = Some (t_cols (PM.x_t tox), rows') /\
+      c_class col = c_class cf /\ (c_class cf = Atlas.Diff.DiffSqlite.UDT_CLASS -> c_T col = c_T cf).
+Proof. exact RE.engine_untouched_type_text_kept. Qed.
+Print Assumptions C05_untouched_type_text_kept.
+
+(** 23. The bracket is a fact about [PM.PlanChanges] for ALL schemas and ALL change lists (no premise on the change
+    set, none on the desired schema's foreign keys): a plan that contains a DROP TABLE -- every DropTable change and
+    every rebuild does ([C05_engine_rebuild_has_drop]) -- is [PRAGMA foreign_keys = off :: mid ++ [PRAGMA foreign_keys =
+    on]] with no pragma in [mid].  So the premise of 17 that is about the *plan* is discharged here; what remains in 17
+    is about the *connection* (no transaction open, or enforcement off already), which C05_schema_apply discharges
+    for both --tx-mode's. *)
+Theorem C05_engine_bracket_every_drop :
+  forall (from to : PM.xschema) (cs : list DM.schange) (p : PM.plan),
+    PM.PlanChanges from to cs = Some p ->
+    existsb Atlas.Sqlite.PlanProofs.is_drop_table (PM.plan_stmts p) = true ->
+    exists mid, PM.plan_stmts p = PM.SPragmaFK false :: mid ++ [PM.SPragmaFK true] /\
+                forallb (fun s => negb (Atlas.Sqlite.PlanProofs.is_pragma s)) mid = true.
+Proof. exact RE.engine_bracket. Qed.
+Print Assumptions C05_engine_bracket_every_drop.
+
+Theorem C05_engine_rebuild_has_drop :
+  forall (from : table) (tox : PM.xtable) (cs : list DM.change) (r : list PM.pchange) (sk : bool),
+    PM.alterable (PM.x_t tox) cs = false -> PM.modifyTable from tox cs = Some (r, sk) ->
+    sk = true /\ In (PM.SDropTable (PM.x_name tox)) (map PM.pc_cmd r).
+Proof. exact RE.rebuild_has_drop. Qed.
+Print Assumptions C05_engine_rebuild_has_drop.
+
+(** non-vacuity of 17-19: t(id INTEGER PRIMARY KEY AUTOINCREMENT, v text) and p(a text, v text), both with
+    [v] becoming NOT NULL DEFAULT 'q': the plan exists and runs; NULL -> 'q'; t keeps rowids 1, 2 (alias), p is
+    renumbered 1, 3 -> 1, 2; the counter of t drops from 4 to 2 *)
+Example C05_engine_nonvacuous :
+  RW.w_after = Some (Some [(1%Z, [(RW.nId, EM.VInt 1); (RW.nV, RW.vt 97)]); (2%Z, [(RW.nId, EM.VInt 2); (RW.nV, RW.vt 113)])],
+                     Some [(1%Z, [(RW.nA, RW.vt 120); (RW.nV, RW.vt 49)]); (2%Z, [(RW.nA, RW.vt 122); (RW.nV, RW.vt 113)])],
+                     Some 2%Z) /\
+  (exists r, RW.w_seg = Some (r, true) /\ PM.alterable (PM.x_t RW.t_new) RW.t_sub = false /\
+     exists d' s', SM.exec_seq_all (RW.w_db, RW.w_seq) (map PM.pc_cmd r) = EM.Ok (d', s') /\ SM.seq_get RW.nT s' = Some 2%Z) /\
+  ~ In RW.nA (SM.touched_names RW.w_cs) /\
+  (* 22: the untouched column id of t: same class, no type change reported *)
+  Atlas.Diff.DiffSqlite.sqlite_type_changed RW.cId RW.cId = Some false /\
+  (* 23: the plan of the two rebuilds contains a DROP TABLE *)
+  (exists p, RW.w_plan = Some p /\ existsb Atlas.Sqlite.PlanProofs.is_drop_table (PM.plan_stmts p) = true).
+Proof.
+  split; [exact RW.w_after_eq|]. split; [exact RW.w_seg_ok|].
+  split; [|split; [vm_compute; reflexivity|eexists; split; vm_compute; reflexivity]].
+  vm_compute. intros H. repeat (destruct H as [H|H]; [discriminate|]). exact H.
+Qed.
+
+(** 24. Views and triggers (round 5, goal 3; Sqlite/ViewModel.v: a view / trigger is the set of table names its text
+    mentions, a trigger also the table it is ON; ALTER TABLE RENAME re-parses them all and is refused when one
+    mentions a missing table; DROP TABLE drops the triggers ON it): a table whose name a view or the body of a trigger
+    on *another* table mentions can never be rebuilt -- for every definition, change list and database (the name
+    used once), the copy path never runs to its end: the RENAME finds the view dangling.  So such a run is always a
+    proper prefix of the plan: `--tx-mode file` rolls back (C05_schema_apply), `--tx-mode none` leaves the state of
+    C05_no_prefix_loses_rows (the rows are in new_<t>; stage rowid counts partial-state-rows-under-temp-name).  A
+    trigger ON the rebuilt table does not block it (it is dropped with the table and silently gone afterwards). *)
+From Atlas Require Sqlite.ViewModel Sqlite.ViewProofs.
+Module VM := Atlas.Sqlite.ViewModel.
+Module VP := Atlas.Sqlite.ViewProofs.
+Theorem C05_view_blocks_rebuild :
+  forall (from : table) (tox : PM.xtable) (cs : list DM.change) (r : list PM.pchange) (sk : bool)
+         (d : EM.db) (ds : list VM.dep) (dp : VM.dep),
+    PM.alterable (PM.x_t tox) cs = false ->
+    PM.modifyTable from tox cs = Some (r, sk) ->
+    EM.db_fk d = false ->
+    VP.cnt (PM.x_name tox) (EM.db_tables d) <= 1 ->
+    In dp ds -> In (PM.x_name tox) (VM.dep_reads dp) -> VM.dep_on dp <> Some (PM.x_name tox) ->
+    forall res, VM.exec_v_all (d, ds) (map PM.pc_cmd r) <> VM.VOk res.
+Proof. exact VP.view_blocks_rebuild. Qed.
+Print Assumptions C05_view_blocks_rebuild.
+
+Example C05_view_blocks_rebuild_nonvacuous :
+  exists r, RW.w_seg = Some (r, true) /\
+    (let '(dv, k, e) := VM.exec_v_count (RW.w_db, [VP.w_dep]) (map PM.pc_cmd r) 0 in
+     k = 3 /\ e = Some VM.VDangling /\ SM.rows_of RW.nT (fst dv) = None /\
+     SM.rows_of (PM.NEW_ ++ RW.nT) (fst dv) =
+       Some [(1%Z, [(RW.nId, EM.VInt 1); (RW.nV, RW.vt 97)]); (2%Z, [(RW.nId, EM.VInt 2); (RW.nV, RW.vt 113)])]) /\
+    VP.cnt RW.nT (EM.db_tables RW.w_db) <= 1.
+Proof. exact VP.w_view_run. Qed.
+
+(** 25. RowsModel ~ EngineModel on the row component (round 5, goal 1).  The two abstract engines have different value
+    domains; under any rendering [tok] of the shared engine's non-NULL values, [RF.absv] maps them to RowsModel's
+    (NULL | token).  The cell INSERT ... SELECT computes for a stored column is the same in both: RowsModel.col_value
+    (identity conversion) on the abstracted old row, with the abstracted pairing, is the abstraction of the cell
+    [EM.new_row] stores -- for every table, row, pairing (positional in RowsModel, first match of the zipped lists in
+    EngineModel), provided the source columns exist (what INSERT checks) and the default of the RowsModel column is the
+    abstraction of the engine's.  Not covered: generated columns (RowsModel materialises them, EngineModel stores
+    stored columns only), affinity conversion ([conv] is the identity here), the catalogue side. *)
+From Atlas Require Sqlite.RowsRefine.
+Module RF := Atlas.Sqlite.RowsRefine.
+Theorem C05_rows_engine_refinement :
+  forall (tok : EM.value -> str) (old : etable) (to : table) (r : EM.row) (nx : Z) (rc : rcol) (col : column)
+         (tc : list str) (ex : list PM.sexpr),
+    NoDup (map c_name (t_cols to)) -> In col (t_cols to) -> c_gen col = None ->
+    length tc = length ex ->
+    rc_name rc = c_name col ->
+    rc_defval rc = RF.absv tok (EM.default_of col) ->
+    (forall e, In e ex -> exists c0 p0, find_rcol (EM.sexpr_col e) (et_cols old) = Some c0 /\
+                                        find (fun p => str_eqb (fst p) (EM.sexpr_col e)) (snd r) = Some p0) ->
+    col_value RF.idconv old (RF.absrow tok r) rc tc (map (RF.abs_expr tok) ex) =
+      EOk (RF.absv tok (EM.row_get (EM.new_row to tc ex r nx) (c_name col))).
+Proof. exact RF.new_row_refines. Qed.
+Print Assumptions C05_rows_engine_refinement.
+
+Example C05_rows_engine_refinement_nonvacuous :
+  let tok := fun v : EM.value => match v with EM.VText b => b | _ => [] end in
+  let old := mkEtable RW.nT [mkRcol RW.nV RW.tyText false DNone VNull false false false false] [] [] in
+  let col := RW.cV false (Some (DLit RW.dq)) in
+  col_value RF.idconv old (RF.absrow tok (1%Z, [(RW.nV, EM.VNull)]))
+            (mkRcol RW.nV RW.tyText true (DLiteral false) (RF.absv tok (EM.default_of col)) false false false false)
+            [RW.nV] (map (RF.abs_expr tok) [PM.XIfNull RW.nV [39;113;39]%N])
+  = EOk (VVal RW.dq) /\
+  EM.row_get (EM.new_row (PM.x_t RW.t_new) [RW.nV] [PM.XIfNull RW.nV [39;113;39]%N] (1%Z, [(RW.nV, EM.VNull)]) 5%Z) RW.nV = EM.VText RW.dq.
+Proof. split; vm_compute; reflexivity. Qed.
